@@ -129,6 +129,12 @@ func cmdCheck(args []string) int {
 		timeout = 180 * time.Second
 	}
 	cfg := &solveCfg{outDir: outDir, timeout: timeout, first: 4 * time.Second, workers: 12, stats: newSolverStats(), agree: *tier == "thorough"}
+	cfg.expectFail = map[string]bool{}
+	for _, k := range known {
+		if k.Status != "fixed" {
+			cfg.expectFail[k.Obligation] = true
+		}
+	}
 
 	var results []*FuncResult
 	exs := map[string]*Exec{}
@@ -259,8 +265,12 @@ func cmdCheck(args []string) int {
 		}
 	}
 	for _, kf := range known {
-		if kf.Property == *prop && kf.Status != "fixed" && knownHit[kf.Obligation] {
-			fmt.Printf("KNOWN-FINDING: property=%s %s (%s)\n", *prop, kf.What, kf.Obligation)
+		if kf.Status != "fixed" && knownHit[kf.Obligation] {
+			if kf.Property == *prop {
+				fmt.Printf("KNOWN-FINDING: property=%s %s (%s)\n", *prop, kf.What, kf.Obligation)
+			} else {
+				fmt.Printf("KNOWN-FINDING: property=%s [recorded under %s, obligation on a function shared with this property] %s (%s)\n", *prop, kf.Property, kf.What, kf.Obligation)
+			}
 		}
 	}
 	if total < spec.Floor {
@@ -367,6 +377,14 @@ func matchKnown(known []KnownFinding, prop, obl string) *KnownFinding {
 	for i := range known {
 		k := &known[i]
 		if k.Property == prop && k.Status != "fixed" && k.Obligation == obl {
+			return k
+		}
+	}
+	// an open finding recorded under another property whose failing obligation is re-generated in this property's
+	// scope (shared function): the same finding, not a new violation
+	for i := range known {
+		k := &known[i]
+		if k.Status != "fixed" && k.Obligation == obl {
 			return k
 		}
 	}
